@@ -294,9 +294,9 @@ mod proofs {
     let mut i = 0;
     while i < 4 {
       named[i] = kani::any();
-      let w: u8 = kani::any();
-      kani::assume(w <= 2);
-      width[i] = w;
+      // widths stay concrete: a symbolic total length makes the document `String` a heap
+      // object of symbolic size (DESIGN 3); Level never looks at byte ranges
+      width[i] = 1;
       i += 1;
     }
     let mut sidx = 0;
@@ -318,7 +318,8 @@ mod proofs {
       let total = d.layout(&width, &[0; MAXN]) as usize;
       d.fix_named_counts();
       let (last, depth) = subtree_info(n, &parent);
-      let g = mk_grep(&SRC_X[..total], d);
+      let _ = total;
+      let g = mk_grep(SRC_X, d);
       let mut start = 0;
       while start < n {
         let node = node_at(&g, start);
